@@ -11,6 +11,8 @@ import random
 from common import Report, ToolError, chars, check_action_coverage, log, run_cases, run_tlc, std_main
 
 MAP = {"N": "\n"}
+# multi-byte text longer than one pipe buffer, placed so that characters straddle every power-of-two read size
+MB_OUT = "x" + "\u20ac" * 30000 + "\u00e9" * 5 + "\n"
 
 
 def inner(kind):
@@ -51,6 +53,8 @@ def outputs(c):
     o1 = chars(c["o1"], MAP)
     if c.get("volume") in ("bigout", "both"):
         o1 = "y" * 100000 + "\n"
+    if c.get("volume") == "bigout-mb":
+        o1 = MB_OUT
     if c["kind"] == "builtin":
         o1 = "alias zz='vq'\n"
     return o1, chars(c["o2"], MAP)
@@ -153,6 +157,7 @@ def runner(rep, tier, seed, replay):
             vol.append(dict(c, kind="simple", volume="bigout"))
             vol.append(dict(c, kind="simple", volume="bigerr"))
             vol.append(dict(c, kind="simple", volume="both"))
+            vol.append(dict(c, kind="simple", volume="bigout-mb"))
     cases += vol
     log("[C11] %d cases" % len(cases))
     jobs = []
@@ -163,6 +168,8 @@ def runner(rep, tier, seed, replay):
             vh["out.1"] = "y" * 100000 + "\n"
         if c.get("volume") in ("bigerr", "both"):
             vh["err.1"] = "E" * 200000 + "\n"
+        if c.get("volume") == "bigout-mb":
+            vh["out.1"] = MB_OUT
         if c["kind"] == "failing":
             vh["st.1"] = "3"
         jobs.append({"entry": "c", "text": render(c), "vhfiles": vh, "timeout": 5, "want_files": False})
